@@ -4,6 +4,7 @@ CONSTANTS
   WithQueries = FALSE
   WithMixed = TRUE
   HeavyLaws = FALSE
+  SlimGates = FALSE
   Mutant <- NoMutant
 VIEW View
 INVARIANT Emit
